@@ -398,7 +398,53 @@ class Exec:
         tags = [t for t in tags if t not in ('seq', 'intf')]
         if self.mode == 'intf' and 'C02' not in tags and any(t in ('C01', 'C05') for t in tags):
             tags = tags + ['C02']
-        self.obls.append(Obligation(name, list(tags), list(st.pc), goal, where, kind, self.cur_fn, extra))
+        asm = list(st.pc)
+        # definitions of named arrays (spec.name_arrays) that the goal or the hypotheses mention but that were introduced
+        # while evaluating on another copy of the state
+        gd = getattr(self, 'arrdef_eqs', None)
+        if gd:
+            have = set(getattr(st, 'arrdef_names', ()) or ())
+            used = self.arr_names_used([goal] + asm)
+            todo = [n for n in used if n in gd]
+            seen = set()
+            while todo:
+                n = todo.pop()
+                if n in seen:
+                    continue
+                seen.add(n)
+                eq = gd[n]
+                if not any(eq.eq(a) for a in asm[-200:]):
+                    asm.append(eq)
+                for n2 in self.arr_names_used([eq]):
+                    if n2 in gd and n2 not in seen:
+                        todo.append(n2)
+        self.obls.append(Obligation(name, list(tags), asm, goal, where, kind, self.cur_fn, extra))
+
+    def arr_names_used(self, terms):
+        cache = getattr(self, '_arruse', None)
+        if cache is None:
+            cache = self._arruse = {}
+
+        def uses(t):
+            i = t.get_id()
+            if i in cache:
+                return cache[i]
+            cache[i] = frozenset()      # cycle guard
+            if z3.is_const(t) and t.decl().kind() == z3.Z3_OP_UNINTERPRETED:
+                n = t.decl().name()
+                r = frozenset([n]) if n.startswith('arr!') else frozenset()
+            else:
+                r = frozenset()
+                for c in t.children():
+                    r = r | uses(c)
+                if z3.is_quantifier(t):
+                    r = r | uses(t.body())
+            cache[i] = r
+            return r
+        out = set()
+        for t in terms:
+            out |= uses(t)
+        return out
 
     def check_nonnil(self, st, p, ins, what='deref'):
         if p.cid is not None:
